@@ -73,7 +73,8 @@ static void gen_ratios(rng_t* r, uint64_t n, int maxe, double* v, unsigned varia
   }
 }
 
-static const int DIV_EXP[] = {-8, -3, -1, 0, 1, 4, 8, 10, 16, 19, 20, 31, 32, 40};
+// (every power of two is a legal divisor: the extremes check that no intermediate constant is kept in a narrower type)
+static const int DIV_EXP[] = {-8, -3, -1, 0, 1, 4, 8, 10, 16, 19, 20, 31, 32, 40, -300, -128, -97, -64, 64, 127, 182, 300};
 
 // ---------------------------------------------------------------- reim_from_znx64
 static void case_from_znx64(uint64_t m, int variant /*0 table native,1 table generic,2 ref,3 fma*/, unsigned rep) {
@@ -129,7 +130,9 @@ static void case_to_znx64_b(uint64_t m, int variant /*0 native table,1 generic t
   const int wide = log2bound > 50;
   const int maxe = log2bound > 52 ? 52 : (int)log2bound;
   char key[96];
-  snprintf(key, sizeof key, "reim_to_znx64|%s,%s,%s", vn[variant], wide ? "log2bound>50(|x/d|<2^52)" : "log2bound<=50", m >= 8 ? "m>=8" : "m<8");
+  // rep bit 8: the conversion overwrites its own input (r == x: same pointer; the library does this itself in vec_znx_idft_tmp_a)
+  const int inplace = (rep >> 8) & 1;
+  snprintf(key, sizeof key, "reim_to_znx64|%s,%s,%s%s", vn[variant], wide ? "log2bound>50(|x/d|<2^52)" : "log2bound<=50", m >= 8 ? "m>=8" : "m<8", inplace ? ",in place" : "");
   if (!case_begin(key, "m=%" PRIu64 " log2bound=%u divisor=2^%d rep=%u", m, log2bound, dexp, rep)) return;
   rng_t* r = crng();
   const uint64_t n = 2 * m;
@@ -141,6 +144,9 @@ static void case_to_znx64_b(uint64_t m, int variant /*0 native table,1 generic t
   double* ratio = malloc(n * 8);
   gen_ratios(r, n, maxe, ratio, rep);
   for (uint64_t i = 0; i < n; i++) x[i] = ratio[i] * d;  // exact: power-of-two scaling, no under/overflow here
+  double* x0 = malloc(n * 8 + 8);
+  memcpy(x0, x, n * 8);
+  if (inplace) out = (int64_t*)x;
   set_dispatch(variant != 1);
   REIM_TO_ZNX64_PRECOMP* p = new_reim_to_znx64_precomp((uint32_t)m, d, log2bound);
   set_dispatch(1);
@@ -152,7 +158,7 @@ static void case_to_znx64_b(uint64_t m, int variant /*0 native table,1 generic t
   }
   uint64_t nbad = 0;
   for (uint64_t i = 0; i < n; i++) {
-    q_t t = (q_t)x[i] / (q_t)d;
+    q_t t = (q_t)x0[i] / (q_t)d;
     q_t diff = fabsq((q_t)out[i] - t);
     if (diff > (q_t)0.5) {
       // class key of the one pre-existing finding: x/d = +-pred(1/2) on the bnd63 AVX2 kernel
@@ -165,8 +171,10 @@ static void case_to_znx64_b(uint64_t m, int variant /*0 native table,1 generic t
   if (gb_check(&gi, &wh) || gb_check(&go, &wh)) viol("canary", "reim_to_znx64[%s] accessed outside its buffers (%ld)", vn[variant], wh);
   free(p);
   free(ratio);
+  free(x0);
   gb_free(&gi);
   gb_free(&go);
+  if (inplace) cnt("inplace_conversions", 1);
   cnt("values_checked", n);
   cnt("conv:reim_to_znx64", n);
   cntf("divisor:2^%d", 1, dexp);
@@ -740,5 +748,7 @@ void run_C14(void) {
       if (!(v == 3 && m < 8)) case_cplx_to_tnx32(m, v, 18, 3, rep);
       for (int vv = 0; vv < 5; vv++)
         if (!(vv >= 3 && m < 2) && v == 0) case_to_znx64(m, vv, vv != 3, 7, rep);
+      for (int vv = 0; vv < 5; vv++)
+        if (!(vv >= 3 && m < 2) && v == 0) case_to_znx64(m, vv, vv != 3, (int)(m % 5), rep | 256);  // in place
     }
 }
